@@ -27,6 +27,9 @@ type machine struct {
 	accepted map[int]int // per peer
 	rejected map[int]int
 	ent2Gone map[int]bool // the peer announced its entity [2] as removed
+	// the bindings the history says exist: granted by a bind call, not deleted by a delete call that
+	// was answered with success, holder neither disconnected nor removed (key: peer|client|server index)
+	granted map[string]bool
 }
 
 // holdsProtectedElement: does the list hold an element whose changeability flag is not true?
@@ -41,6 +44,17 @@ func holdsProtectedElement(f *gen.Func, items []reflect.Value) bool {
 		}
 	}
 	return false
+}
+
+func gkey(pi int, client regs.Ref, si int) string { return fmt.Sprintf("%d|%s|%d", pi, client, si) }
+
+func serverIndex(r regs.Ref) int {
+	for i, s := range regs.ServerRefs {
+		if s.String() == r.String() {
+			return i
+		}
+	}
+	return -1
 }
 
 func (m *machine) logf(format string, a ...any) { m.hist = append(m.hist, fmt.Sprintf(format, a...)) }
@@ -97,6 +111,13 @@ func (m *machine) write(t *rapid.T, pi int, client regs.Ref, si int, f *gen.Func
 	if listed != has {
 		world.Fail(t, "C03/registry-views-disagree", "HasLocalFeatureRemoteBinding=%v but Bindings(peer) listed=%v for %s -> %s%s", has, listed, clientAddr, srv.Address(), m.history())
 	}
+	if want := m.granted[gkey(pi, client, si)]; want != has {
+		kind := "granted-binding-gone"
+		if has {
+			kind = "binding-nobody-was-granted"
+		}
+		world.Fail(t, "C03/registry-disagrees-with-history/"+kind, "by the history the binding %s -> server#%d of peer%d exists=%v (granted and not deleted since, holder still there), the registry says %v: the authorisation of this write follows the wrong state%s", client, si, pi+1, want, has, m.history())
+	}
 	state := refmodel.CloneItems(refmodel.ItemsOf(f, srv.DataCopy(f.Fn)))
 	u := listgen.Update(t, f, state, shape, gen.Opt{}, "w")
 	stripFlags(f, &u)
@@ -106,7 +127,19 @@ func (m *machine) write(t *rapid.T, pi int, client regs.Ref, si int, f *gen.Func
 		q.Cap.Drain()
 	}
 	w.Events.Drain()
-	d := p.Msg(model.CmdClassifierTypeWrite, clientAddr, srv.Address(), ack, nil, listgen.Cmd(f, u))
+	cmd := listgen.Cmd(f, u)
+	if !u.HasFilter() && rapid.IntRange(0, 3).Draw(t, "functionElement") == 0 {
+		// the optional function element of a full write names another function of the feature (the
+		// writable one when the read-only one is written and vice versa): what is written is what the
+		// data element says
+		other := w.Servers[si].Writable
+		if f.Fn == other {
+			other = w.Servers[si].ReadOnly
+		}
+		cmd.Function = &other
+		world.Label("write/function-element-names-other-function")
+	}
+	d := p.Msg(model.CmdClassifierTypeWrite, clientAddr, srv.Address(), ack, nil, cmd)
 	p.Send(d)
 	w.Sync()
 	results, errNo := 0, -1
@@ -265,6 +298,7 @@ func (m *machine) bindThenWrite(t *rapid.T) {
 	expect := ""
 	if ok {
 		expect = "accepted"
+		m.granted[gkey(pi, client, si)] = true
 	}
 	m.ops = append(m.ops, fmt.Sprintf("bind:%v", ok))
 	m.write(t, pi, client, si, f, listgen.Full, rapid.Bool().Draw(t, "ack"), expect)
@@ -329,6 +363,9 @@ func (m *machine) unbindThenWrite(t *rapid.T) {
 	if ok && variant == "valid" {
 		expect = "rejected"
 	}
+	if ok {
+		delete(m.granted, gkey(c.Peer, c.Client, b.si))
+	}
 	m.ops = append(m.ops, fmt.Sprintf("unbind:%s:%v", variant, ok))
 	f := gen.ByFunction(m.w.Servers[b.si].Writable)
 	m.write(t, b.pi, b.client, b.si, f, listgen.Full, true, expect)
@@ -344,6 +381,11 @@ func (m *machine) reconnectThenWrite(t *rapid.T) {
 	m.w.Disconnect(old)
 	m.w.Reconnect(old, regs.PeerEntities())
 	m.ent2Gone[b.pi] = false
+	for k := range m.granted {
+		if strings.HasPrefix(k, fmt.Sprintf("%d|", b.pi)) {
+			delete(m.granted, k)
+		}
+	}
 	m.logf("peer%d disconnected and connected again", b.pi+1)
 	m.ops = append(m.ops, "reconnect")
 	f := gen.ByFunction(m.w.Servers[b.si].Writable)
@@ -377,6 +419,11 @@ func (m *machine) entityRemoveThenWrite(t *rapid.T) {
 	}
 	send(&removed, false)
 	m.ent2Gone[pi] = true
+	for k := range m.granted {
+		if strings.HasPrefix(k, fmt.Sprintf("%d|[2]/", pi)) {
+			delete(m.granted, k)
+		}
+	}
 	m.logf("peer%d announces entity [2] removed", pi+1)
 	m.ops = append(m.ops, "entity-removed")
 	si, client := 0, regs.Ref{Ent: []uint{2}, Feat: 1}
@@ -404,6 +451,9 @@ func (m *machine) unbind(t *rapid.T) {
 	}
 	_, ok := m.w.Do(c, world.UnbindCall(m.w.ClientAddr(c), m.w.ServerAddr(c)))
 	m.logf("unbind %s => %v", c, ok)
+	if si := serverIndex(c.Server); ok && si >= 0 {
+		delete(m.granted, gkey(c.Peer, c.Client, si))
+	}
 	m.ops = append(m.ops, "unbind-random")
 }
 
@@ -436,7 +486,7 @@ func (m *machine) setData(t *rapid.T) {
 
 func TestWriteGate(t *testing.T) {
 	rapid.Check(t, world.Prop(func(t *rapid.T) {
-		m := &machine{w: regs.New(3), accepted: map[int]int{}, rejected: map[int]int{}, ent2Gone: map[int]bool{}}
+		m := &machine{w: regs.New(3), accepted: map[int]int{}, rejected: map[int]int{}, ent2Gone: map[int]bool{}, granted: map[string]bool{}}
 		defer m.w.Teardown()
 		t.Repeat(map[string]func(*rapid.T){
 			"write":                 m.randomWrite,
